@@ -27,6 +27,10 @@ func (propC04) Gen(r *Rng, run uint64, tier string) *Plan {
 	}
 	spec := WorldSpec{NMin: 0, NMax: 8, RecMin: 0, RecMax: 12, Lo: BaseNs, Hi: BaseNs + 20*sec, Grid: sec, TieProb: 0.6,
 		Msg: "token", AllNamed: r.Bool(0.5), NoHuge: true}
+	if r.Bool(0.15) {
+		// timestamps of different containers a few nanoseconds apart
+		spec.NearTie = 0.5
+	}
 	switch x := r.Intn(100); {
 	case x < 10:
 		spec.NMax = 2
